@@ -160,14 +160,14 @@ GW_SOIL = "920"
 
 
 def custom_soil_ids():
-    return [GW_SOIL] + ["%d%02d" % (6 + k, n) for n in CUSTOM_LAYERS for k in (0, 1, 2)]
+    return [GW_SOIL, "921", "922"] + ["%d%02d" % (6 + k, n) for n in CUSTOM_LAYERS for k in (0, 1, 2)]
 
 
 def write_custom_soils(dst, name):
     out = ["SID,C_org,Texture,LayerDepth,BulkDensityClass,Stone,C/N,C/S,RootDepth,NumberHorizon,FieldCapacity,WiltingPoint,PoreVolume,"
            "Sand,Silt,Clay,DrainageDepth,Drainage%,GroundWaterLevel"]
     for sid in custom_soil_ids():
-        if sid == GW_SOIL:
+        if sid in (GW_SOIL, "921", "922"):
             continue
         n, rd = int(sid[1:]), int(sid[1:]) - (int(sid[0]) - 6)
         out.append("%s,0.90,SL2,03,3,00,10,00,%02d,02,22,09,38,73,21,06,20,00,99" % (sid, rd))
@@ -175,6 +175,10 @@ def write_custom_soils(dst, name):
     # 20 layers, root limit 15 dm, groundwater table at 8 dm (inside the root zone)
     out.append("%s,0.90,SL2,03,3,00,10,00,15,02,22,09,38,73,21,06,20,00,08" % GW_SOIL)
     out.append("%s,0.30,SL4,20,3,00,10,00,,,22,12,43,61,27,12,20,00,   " % GW_SOIL)
+    # the same profile waterlogged: groundwater table 1 dm resp. 2 dm below the surface (air shortage in the topsoil)
+    for sid, gw in (("921", 1), ("922", 2)):
+        out.append("%s,0.90,SL2,03,3,00,10,00,15,02,22,09,38,73,21,06,20,00,%02d" % (sid, gw))
+        out.append("%s,0.30,SL4,20,3,00,10,00,,,22,12,43,61,27,12,20,00,   " % sid)
     open(os.path.join(dst, "soil_%s.csv" % name), "w").write("\n".join(out) + "\n")
 
 
@@ -183,7 +187,8 @@ def batch_line(name, sp, y0, end):
     return ("project=%s WeatherFolder=%s soilId=%s fcode=109_120 plotNr=10001 Altitude=73 Latitude=%s poligonID=29872 "
             "CO2method=%d CropParameterFormat=%s CropFileFormat=csv %sAutoIrrigation=0 AutoFertilization=0 AutoSowingHarvest=%d AutoHarvest=0 "
             "StartYear=%d ResultFileFormat=0 EndDate=%s resultfolder=R9/%s"
-            % (name, sp["weather"], sp["soil"], "%g" % sp.get("lat", 52.6732), sp["co2"], "yml" if sp["yml"] else "txt", ("SoilFileExtension=csv " if custom else "") + ("WeatherNoneValue=-99.9 " if sp["weather"] in GAP_SCENARIOS else ""),
+            % (name, sp["weather"], sp["soil"], "%g" % sp.get("lat", 52.6732), sp["co2"], "yml" if sp["yml"] else "txt", ("SoilFileExtension=csv " if custom else "") + ("WeatherNoneValue=-99.9 " if sp["weather"] in GAP_SCENARIOS else "")
+               + ("WeatherNumHeader=3 " if sp["weather"].startswith("wind") else ""),
                1 if sp.get("autosow") else 0, y0, _d(12, 31, end[2]), name)) + ((" " + sp["extra"]) if sp.get("extra") else "")
 
 
@@ -280,12 +285,31 @@ def gap_scenarios(ex, seed):
             open(os.path.join(dst, fn), "w").write("\n".join([",".join(hdr), ",".join(second)] + [",".join(t) for t in body]))
 
 
+WIND_HEIGHTS = (1, 3, 5, 10)
+
+
+def wind_scenarios(ex):
+    """the shipped weather with a third header line 'altitude,wind height,CO2' declaring the wind measurement height (WeatherNumHeader=3)"""
+    src = os.path.join(ex, "weather", "historical")
+    for h in WIND_HEIGHTS:
+        dst = os.path.join(ex, "weather", "wind%d" % h)
+        if os.path.isdir(dst):
+            continue
+        os.makedirs(dst)
+        for fn in os.listdir(src):
+            if not fn.endswith(".csv"):
+                continue
+            lines = open(os.path.join(src, fn)).read().split("\n")
+            open(os.path.join(dst, fn), "w").write("\n".join(lines[:2] + ["73,%d,-" % h] + lines[2:]))
+
+
 def plan(ctx):
     """the traced runs of this tier: [(project name, rotation rows, batch line, yml, tag)]"""
     rnd = random.Random(ctx.seed)
     ex = waterlib.prepare_examples(ctx)
     weather_scenarios(ex, ctx.seed)
     gap_scenarios(ex, ctx.seed)
+    wind_scenarios(ex)
     runs = []
     scen = ["historical", "extreme", "drought", "frost", "sungaps", "radgaps"]
     nlevels = [0, 60, 150, 400]
@@ -329,6 +353,9 @@ def plan(ctx):
         for ptf in (1, 2, 3, 4):
             variants.append(dict(extra="PTF=%d" % ptf))
         variants += [dict(soil=GW_SOIL, extra="GroundWaterFrom=1"), dict(soil="075", extra="GroundWaterFrom=0", gwpoly=True)]
+        variants += [dict(soil="921", extra="GroundWaterFrom=1"), dict(soil="922", extra="GroundWaterFrom=1"),
+                     dict(soil="921", extra="GroundWaterFrom=1", winter=True)]
+        variants += [dict(weather="wind%d" % h, extra="ETpot=3") for h in WIND_HEIGHTS]
         variants += [dict(soil="003"), dict(soil="007"), dict(soil="001")]
         variants += [dict(weather=w) for w in ("frost", "heat", "drought", "extreme")]
         for kv in ("NDeposition=0", "NDeposition=60", "KcFactorBareSoil=0.1", "KcFactorBareSoil=1.0", "LeachingDepth=5", "LeachingDepth=20",
@@ -807,6 +834,7 @@ def replay(ctx, r):
         ex = waterlib.prepare_examples(ctx)
         weather_scenarios(ex, ctx.seed)
         gap_scenarios(ex, ctx.seed)
+        wind_scenarios(ex)
         rows = build_rotation(rnd, [tuple(c) for c in sp["crops"]], sp["start"])
         y0, end = write_project(ex, "rp", rows, sp["nlevel"], rnd, sp.get("autosow", False), sp.get("gwpoly", False))
         line = batch_line("rp", sp, y0, end)
